@@ -134,6 +134,10 @@ pub struct ArchiveSpec {
     pub zip64_end: Option<[bool; 3]>,
     #[serde(with = "crate::util::hexbytes")]
     pub gap_before_cd: Vec<u8>,
+    /// "zip64 extensible data sector" (APPNOTE 4.3.14) appended to the ZIP64 end record; the record's
+    /// size field then is 44 + its length
+    #[serde(default, with = "crate::util::hexbytes")]
+    pub zip64_ext: Vec<u8>,
 }
 
 impl ArchiveSpec {
@@ -145,6 +149,7 @@ impl ArchiveSpec {
             comment: vec![],
             trailing: vec![],
             zip64_end: None,
+            zip64_ext: Vec::new(),
             gap_before_cd: vec![],
         }
     }
@@ -462,7 +467,7 @@ pub fn build(spec: &ArchiveSpec) -> Result<Built, String> {
     };
     if let Some(_m) = mask {
         w.u32(0x06064b50, "z_sig");
-        w.u64(44, "z_size");
+        w.u64(44 + spec.zip64_ext.len() as u64, "z_size");
         w.u16(45, "z_madeby");
         w.u16(45, "z_version");
         w.u32(0, "z_disk");
@@ -471,6 +476,7 @@ pub fn build(spec: &ArchiveSpec) -> Result<Built, String> {
         w.u64(n, "z_count");
         w.u64(cd_size, "z_cdsize");
         w.u64(cd_start - base, "z_cdoffset");
+        w.raw(&spec.zip64_ext);
         w.u32(0x07064b50, "zl_sig");
         w.u32(0, "zl_disk");
         w.u64(cd_end - base, "zl_offset");
